@@ -185,6 +185,18 @@ def check(rep, ctx):
                    "every top-level class name) give the shipped names", floor=500)
     for row in naming_rows(ctx):
         rep.check(R11, row["ok"], construct=row["construct"], stmt=row["stmt"], message=row["message"], file=row["file"], line=row["line"])
+    from ..gen_tables import struct_field_lines, string_default_literals
+    R12 = rep.rule("C16-G12-struct-fields", "the lines emitted for struct and struct-array fields over a grid of definitions x versions: name, "
+                   "nullability, tag and default as the definition states for that version (an array without explicit default is the empty array)",
+                   floor=60)
+    for row in struct_field_lines(ctx):
+        rep.check(R12, row["ok"], construct=f"codegen.generate_schema:{'format_non_primitive_array_field' if row['kind'] == 'array' else 'generate_entity_field'}",
+                  stmt=f"{row['kind']} {row['case']}", message=row["message"], file=gsrc.rel, line=0)
+    R13 = rep.rule("C16-G13-string-default", "a string default is emitted as a literal that evaluates to that string (quotes, backslashes, "
+                   "control characters, non-ASCII, characters beyond U+FFFF)", floor=10)
+    for row in string_default_literals(ctx):
+        rep.check(R13, row["ok"], construct="codegen.generate_schema:format_default", stmt=row["case"], message=row["message"],
+                  file=gsrc.rel, line=row["line"])
     R8 = rep.rule("C16-G8-field", "format_dataclass_field: an explicit default is emitted as given whatever the tagging/ignorability; "
                   "metadata carries the kafka type and the tag iff tagged", floor=40,
                   necessary_because="ApiVersionsResponse.FinalizedFeaturesEpoch is tagged, ignorable and has default -1: it must stay -1")
